@@ -31,13 +31,31 @@ def gen_case(rng, ctx):
 
 
 def check_case(case, ctx):
-    ds, sch = case["ds"], case["scheme"]
+    """the case's dataset, then a successor of the same shape (rankings reversed, elements renamed cyclically) built
+    right after the first dataset and its consensus were dropped, so that it is likely to reuse their addresses; both
+    are aggregated by the same CopelandMethod object (algos.run_config keeps one per process)"""
+    judge(case, ctx, case["ds"], successor=False)
+    ds = case["ds"]
+    elems = ref.universe(ds)
+    if len(elems) >= 2:
+        ren = dict(zip(elems, elems[1:] + elems[:1]))
+        ds2 = [[[ren[e] for e in b] for b in reversed(r)] for r in ds]
+        if [len(r) for r in ds2] == [len(r) for r in ds]:
+            ctx.count("same_shape_successors")
+            judge({**case, "ds": ds2, "successor_of": ds}, ctx, ds2, successor=True)
+
+
+def judge(case, ctx, ds, successor):
+    sch = case["scheme"]
     common.set_case(ctx, case)
-    dataset = libx.mk_dataset(ds)
+    rankings = [libx.mk_ranking(r) for r in ds]
+    dataset = ck.Dataset(rankings)
     scheme = libx.mk_scheme(sch)
     elems = ref.universe(ds)
     n = len(elems)
     sub = {"ds": ds, "scheme": sch}
+    if successor:
+        sub["successor_of"] = case["successor_of"]
     st, cons, _ = algos.run_config("Copeland", dataset, scheme, True, 0)
     if st != "ok":
         ctx.violation(f"C13/raises-{type(cons).__name__}", "Copeland raised " + exc_desc(cons), sub)
@@ -89,7 +107,8 @@ def reach(counters, tier, info):
     k = 1 if tier == "quick" else 20
     out = []
     for name, key, need in [("consensuses judged", "accepted", 2000 * k), ("cases with at least one equality", "with_equality", 500 * k),
-                            ("cases with a pair never ranked together", "unranked_driven", 300 * k)]:
+                            ("cases with a pair never ranked together", "unranked_driven", 300 * k),
+                            ("same-shape successor datasets aggregated by the same object", "same_shape_successors", 1500 * k)]:
         v = counters.get(key, 0)
         out.append({"name": name, "observed": v, "required": need, "ok": v >= need})
     return out
